@@ -209,7 +209,7 @@ PROPS["C08"] = {
 }
 
 PROPS["C09"] = {
-    "families": ["OF"], "ops": "pk,pkrw,rtrip,rtx,dec", "gen_deps": ["protocol."], "modules": ["C09", "C09b"],
+    "families": ["OF"], "ops": "pk,pkrw,rtrip,rtx,dec", "gen_deps": ["protocol."], "modules": ["C09", "C09b", "C09c"],
     "rule": "pk: packet headers written by an independent encoder (harness/cmd/ofvrun/of_switch.go, from the RFC layouts): VLAN tag over all (pcp, dei) and boundary/random vids, "
             "TCP data offset x 6 code bits, IPv6 fragment offset/M, IGMPv3 S/QRV, IGMPv1/2, IGMPv3 reports with group records and aux words, routing and hop-by-hop headers whose options fill "
             "them exactly, ICMP, ARP, whole Ethernet frames (tagged/untagged; IPv4/ICMP with all sub-byte fields, IPv4/UDP, ARP, IPv6 with hop-by-hop / fragment chains and ICMPv6 / UDP, "
@@ -279,11 +279,12 @@ PROPS["C05"]["level_text"] += (" C05d (40 theorems, with an inventory of every k
     "(as apply-actions, as a bucket's list, inside a flow-mod through Parse), vendor messages without payload — and the precise limits as proved counterexamples "
     "(unknown experimenter / multipart types never parse, a bare hello element header loses what follows it, packet-in and hello swallow bytes behind the message).")
 PROPS["C06"]["level_text"] += (" C06d (80 theorems): for 70 kinds with a constant, stored or header-computed size the model's Len() equals the definition regenerated from the current Go Len() body (tie T1) for every value.")
-PROPS["C03"]["level_text"] += (" C03d (40 theorems): for 37 fixed-layout kinds (headers, the standard actions, InstrMeter, 18 scalar match payloads, NXActionHeader/Conjunction, ControllerID, TLVTableMap, BundleControl) the model's encoder returns exactly the bytes of the Go MarshalBinary body regenerated statement by statement on this run (tie T1), for every field value.")
+PROPS["C03"]["level_text"] += (" C03d (51 theorems): for 48 fixed-layout kinds (headers, the standard actions, goto-table / write-metadata / meter, 23 match payloads, NXActionHeader / Conjunction / CTClear / DecTTL / Resubmit / ResubmitTable, ControllerID, TLVTableMap, BundleControl) the model's encoder returns exactly the bytes of the Go MarshalBinary body regenerated statement by statement on this run (tie T1), for every field value.")
 PROPS["C01"]["level_text"] += (" C01c (API histories): flowMod_history_sent / groupMod_history_sent — for every xid, command and scalar field, any match that encodes, "
     "any list of instructions (apply/write-actions built by any AddAction list; goto-table, write-metadata, meter) added by AddInstruction / buckets built by NewBucket + "
     "AddAction added by AddBucket: every call succeeds, MarshalBinary succeeds, and below 64 KiB the message is framed (version 4, type code, header length = bytes = Len()); "
     "packet-out, hello and bundle-add histories are framed whenever the encoder returns; the constructors of 14 action and 3 instruction kinds are shown to encode for every argument.")
+PROPS["C09"]["level_text"] += (" C09c: the VLAN tag encoder regenerated from the Go source (TPID, then PCP<<13 + DEI<<12 + VID) equals the model's, for all field values (tie T1).")
 PROPS["C02"]["level_text"] += (" C02c: the REAL specification walker (Spec.walk…, incl. minimum lengths, zero padding, alignment, type codes) accepts the model's "
     "encoding and returns one subtree per child, for every hello (any list of version-bitmap elements; whole message through Spec.walk), TLV-table-mod (any list "
     "of maps), any list of bundle properties; 20 action kinds (output … set-field with any fixed-width match field, 10 Nicira kinds incl. note and controller) through the "
